@@ -236,8 +236,8 @@ func (x *Exec) pureCall(st *State, fn *ssa.Function, sig *types.Signature, args 
 		v := Val{T: t, L: []string{app(name, as...)}}
 		if ls[0].IsRef {
 			x.bumpAlloc(st)
-			x.assumeTypeInv(st, v)
 		}
+		x.assumeTypeInv(st, v)
 		rs = append(rs, v)
 	}
 	return rs
@@ -607,6 +607,32 @@ func (x *Exec) havocTarget(st, old *State, tgt string, pkg *types.Package, env m
 			x.unsupported("assigns: unknown ghost %s", tgt)
 		}
 		return
+	case strings.HasPrefix(tgt, "region(") && strings.Contains(tgt, ") at "):
+		// region(R) at E: the part of region R that belongs to object E
+		k := strings.Index(tgt, ") at ")
+		reg := tgt[7:k]
+		e, err := parser.ParseExpr(ghostRe.ReplaceAllString(tgt[k+5:], "ghost__$1"))
+		if err != nil {
+			x.unsupported("assigns target %q: %v", tgt, err)
+			return
+		}
+		sc := &specCtx{x: x, pkg: pkg, env: env, st: old, old: old}
+		ov := sc.expr(e, nil)
+		base := ov.L[0]
+		if isInterface(ov.T) {
+			base = app("iref", ov.L[0])
+		}
+		hit := false
+		for k2 := range x.heapSort {
+			if k2 == reg || strings.HasPrefix(k2, reg+".") || strings.HasPrefix(k2, reg+"#") {
+				x.havocAt(st, k2, base, "")
+				hit = true
+			}
+		}
+		if !hit {
+			x.pendingHavoc(st, reg)
+		}
+		return
 	case strings.HasPrefix(tgt, "region(") && strings.HasSuffix(tgt, ")"):
 		reg := tgt[7 : len(tgt)-1]
 		hit := false
@@ -686,6 +712,8 @@ func (x *Exec) assignsRegions(ctr *Contract, isGo bool, sig *types.Signature) (r
 				all = true
 			case strings.HasPrefix(tgt, "#"):
 				ghosts[tgt[1:]] = true
+			case strings.HasPrefix(tgt, "region(") && strings.Contains(tgt, ") at "):
+				regions[tgt[7:strings.Index(tgt, ") at ")]] = true
 			case strings.HasPrefix(tgt, "region("):
 				regions[tgt[7:len(tgt)-1]] = true
 			case strings.HasPrefix(tgt, "contents("):
